@@ -168,9 +168,13 @@ func genC12(e *emitter, r *rng, tier string) {
 					continue
 				}
 				total := probe(v, o)
+				// every fault point of a short output; about 150 (quick) / 600 (thorough) evenly
+				// spread ones, plus the last few, of a long one
 				step := 1
 				if tier == "quick" && total > 150 {
 					step = total / 150
+				} else if total > 600 {
+					step = total / 600
 				}
 				for mode := 0; mode <= 2; mode++ {
 					var stmts []string
